@@ -264,7 +264,9 @@ def _find_cycles(graph):
         stack.append(node)
         nodes_on_stack.add(node)
 
-        for destination_node in graph[node]:
+        # (Sorted, so that the depth of the search, and with it whether a very long
+        # chain exhausts the stack, does not depend on the hash seed.)
+        for destination_node in sorted(graph[node]):
             if destination_node not in node_indices:
                 strong_connect(destination_node)
                 node_lowlinks[node] = min(
